@@ -24,10 +24,37 @@ for t in ['float', 'double']:
 # statistics fields of arbitrary length: no read beyond the field
 for t in ['i32', 'i64', 'float', 'double', 'bool']:
     JOBS.append(dict(name='c16_rgm_%s_anylen' % t, entry='h_rgm_numeric_anylen', defines=['CQV_T=%d' % T[t], 'CQV_MEMSET_EXACT=64'],
-                     functions=RGM_FUNCS, wip=True, **RD))
+                     functions=RGM_FUNCS, wip=True,
+                     replayer=dict(kind='direct', harness='replay/direct/stats_rgm_anylen_%s.c' % RN.get(t, t), sources=[],
+                                   vars=dict(present='present', l1='l1', l2='l2', l3='l3', l4='l4')), **RD))
 for t in ['bytes', 'flba']:
     JOBS.append(dict(name='c16_rgm_%s' % t, entry='h_rgm_bytes', defines=['CQV_T=%d' % T[t], 'CQV_MEMSET_EXACT=64', 'CQV_MAXLEN=8'],
-                     unwind=9, level='bounded', bound='value, min, max and the witness value x at most 8 bytes each',
+                     level='bounded', bound='value, min, max and the witness value x at most 8 bytes each',
                      functions=RGM_FUNCS + ['compare_bytes'], wip=True, **RD))
     JOBS.append(dict(name='c16_rgm_%s_safety' % t, entry='h_rgm_bytes_safety', defines=['CQV_T=%d' % T[t], 'CQV_MEMSET_EXACT=64'],
                      functions=RGM_FUNCS + ['compare_bytes'], wip=True, **RD))
+
+# 2. filter_row_groups: enforce contract; row_group_matches replaced by its (outcome-naming) contract
+JOBS.append(dict(name='c16_filter_row_groups', entry='h_filter_row_groups', enforce='carquet_reader_filter_row_groups',
+                 replace=['carquet_reader_row_group_matches'], min_loop_obligations=1,
+                 prop='C16', harness='harness/C16/reader_stats.c', overlays=['contracts/stats_reader.ovl'], includes=['.'],
+                 extra_sources=STUBS,
+                 trusted=TR + ['carquet_reader_num_row_groups (src/reader/file_reader.c) re-stated in the harness: returns reader->metadata.num_row_groups',
+                               'row_group_matches is called once per group; its outcome for the ghost group k is named cqv_incl_k'],
+                 wip=True))
+
+# 3. statistics builder (src/metadata/statistics.c)
+BT = dict(bool=0, i32=1, i64=2, int96=3, float=4, double=5)
+BD = dict(prop='C16', harness='harness/C16/builder_stats.c', overlays=['contracts/stats_builder.ovl'], includes=['.'],
+          extra_sources=STUBS, trusted=TR)
+AV = dict(unwindset=['compare_int96.0:4', 'memcmp.0:9', 'memcpy.0:17'])
+for t in ['bool', 'i32', 'i64', 'float', 'double']:
+    JOBS.append(dict(name='c16_builder_add_values_%s' % t, entry='h_add_values', enforce='carquet_statistics_add_values',
+                     defines=['CQV_BT=%d' % BT[t]], min_loop_obligations=1, wip=True, **AV, **BD))
+for t in ['float', 'double']:
+    JOBS.append(dict(name='c16_builder_add_values_%s_no_nan' % t, entry='h_add_values', enforce='carquet_statistics_add_values',
+                     defines=['CQV_BT=%d' % BT[t], 'CQV_NO_NAN=1'], min_loop_obligations=1, level='bounded',
+                     bound='no NaN among the values added and in the bounds so far (NaN case: see c16_builder_add_values_%s)' % t,
+                     wip=True, **AV, **BD))
+JOBS.append(dict(name='c16_builder_add_nulls', entry='h_add_nulls', loop_contracts=False, functions=['carquet_statistics_add_nulls'],
+                 defines=['CQV_BT=1'], wip=True, **BD))
